@@ -1394,6 +1394,10 @@ class Interp:
                     else:
                         best = r if le else best
                 return best
+        if dotted in ("all", "any") and len(args) == 1 and isinstance(args[0], (PList, tuple)) and not kwargs:
+            items = args[0].items if isinstance(args[0], PList) else list(args[0])
+            vals = [self.truth(x, e) for x in items]
+            return all(vals) if dotted == "all" else any(vals)
         if dotted == "getattr" and len(args) in (2, 3) and isinstance(args[1], str) and isinstance(args[0], (Obj, Path, Opaque)):
             return self.getattr(args[0], args[1], e)
         if dotted == "dict" and not args:
